@@ -72,6 +72,79 @@ theorem stepAllAux_eq (b : Bool) (text : List Char) : ∀ (offs : List Nat) (pos
       rw [List.drop_drop]; congr 1; omega
     rw [hdrop, ih o hs']
 
+/-! byte layer -/
+
+theorem byteLen_append (xs ys : List Char) : byteLen (xs ++ ys) = byteLen xs + byteLen ys := by
+  induction xs with
+  | nil => simp [byteLen]
+  | cons a r ih => simp [byteLen, ih, Nat.add_assoc]
+
+/-- cutting at the byte length of a character prefix cuts exactly that prefix -/
+theorem takeBytes_prefix (xs ys : List Char) : takeBytes (byteLen xs) (xs ++ ys) = xs := by
+  induction xs with
+  | nil =>
+    cases ys with
+    | nil => simp [takeBytes]
+    | cons c r =>
+      have := Char.utf8Size_pos c
+      simp only [byteLen, List.nil_append, takeBytes]
+      rw [if_neg (by omega)]
+  | cons a r ih =>
+    simp only [byteLen, List.cons_append, takeBytes]
+    rw [if_pos (by omega)]
+    rw [show a.utf8Size + byteLen r - a.utf8Size = byteLen r by omega, ih]
+
+theorem dropBytes_prefix (xs ys : List Char) : dropBytes (byteLen xs) (xs ++ ys) = ys := by
+  induction xs with
+  | nil =>
+    cases ys with
+    | nil => simp [dropBytes]
+    | cons c r =>
+      have := Char.utf8Size_pos c
+      simp only [byteLen, List.nil_append, dropBytes]
+      rw [if_neg (by omega)]
+  | cons a r ih =>
+    simp only [byteLen, List.cons_append, dropBytes]
+    rw [if_pos (by omega)]
+    rw [show a.utf8Size + byteLen r - a.utf8Size = byteLen r by omega, ih]
+
+theorem byteOff_le (text : List Char) {p k : Nat} (h : p ≤ k) :
+    byteOff text k = byteOff text p + byteLen ((text.drop p).take (k - p)) := by
+  unfold byteOff
+  have : text.take k = text.take p ++ (text.drop p).take (k - p) := by
+    have hk : k = p + (k - p) := by omega
+    conv => lhs; rw [hk, List.take_add]
+  rw [this, byteLen_append]
+
+/-- the byte-driven calculator started at a character boundary does what the
+    character-driven one does -/
+theorem stepAllAuxB_eq (b : Bool) (text : List Char) : ∀ (ks : List Nat) (p : Nat) (s : St),
+    List.Pairwise (· ≤ ·) (p :: ks) →
+    stepAllAuxB b (text.drop p) (byteOff text p) s (ks.map (byteOff text)) =
+      stepAllAux b (text.drop p) p s ks := by
+  intro ks
+  induction ks with
+  | nil => intro p s _; simp [stepAllAuxB, stepAllAux]
+  | cons k ks ih =>
+    intro p s hs
+    have hpk : p ≤ k := List.rel_of_pairwise_cons hs (List.mem_cons_self)
+    have hs' : List.Pairwise (· ≤ ·) (k :: ks) := (List.pairwise_cons.mp hs).2
+    have hn : byteOff text k - byteOff text p = byteLen ((text.drop p).take (k - p)) := by
+      rw [byteOff_le text hpk]; omega
+    have htk : takeBytes (byteOff text k - byteOff text p) (text.drop p) = (text.drop p).take (k - p) := by
+      rw [hn]
+      have := takeBytes_prefix ((text.drop p).take (k - p)) ((text.drop p).drop (k - p))
+      rwa [List.take_append_drop] at this
+    have hdr : dropBytes (byteOff text k - byteOff text p) (text.drop p) = text.drop k := by
+      rw [hn]
+      have := dropBytes_prefix ((text.drop p).take (k - p)) ((text.drop p).drop (k - p))
+      rw [List.take_append_drop] at this
+      rw [this, List.drop_drop]; congr 1; omega
+    have hdr' : (text.drop p).drop (k - p) = text.drop k := by
+      rw [List.drop_drop]; congr 1; omega
+    simp only [List.map_cons, stepAllAuxB, stepAllAux]
+    rw [htk, hdr, hdr', ih k _ hs']
+
 theorem pestAux_eq_spec (pre : List Char) (l c : Nat) :
     pestAux false pre l c = lineColAux pre l c := by
   fun_induction lineColAux pre l c <;> (rw [pestAux.eq_def]; try simp_all)
